@@ -1092,7 +1092,7 @@ func genCase(r *Rng, maxTr int) Sx {
 			g.observe()
 		case x < 87: // historical reads
 			g.reads()
-		case x < 92: // keep a reader / read through a kept one (never across a Recover)
+		case x < 92: // keep a reader / read through a kept one (also across Recover and new forks)
 			if len(g.slots) > 0 && r.Bool() {
 				g.ops = append(g.ops, L(I(7), I(int64(g.slots[r.Intn(len(g.slots))]))))
 			} else if g.did > 0 {
@@ -1104,9 +1104,9 @@ func genCase(r *Rng, maxTr int) Sx {
 			if r.Chance(3, 4) {
 				// a target that is certainly recoverable
 				var cands []int
-				// state id 0 is excluded: unindexing history 1 deletes the index metadata and
-				// every later commit fails (reported finding, see checks/C18.json)
-				for i := max(g.tailUB, 1); i < g.did; i++ {
+				// state id 0 included: unindexing history 1 deletes the index metadata and the
+				// next commit must index history 1 again (repaired finding, corpus/C18)
+				for i := g.tailUB; i < g.did; i++ {
 					if v, ok := g.idmap[g.chain[i]]; ok && v == i {
 						cands = append(cands, i)
 					}
@@ -1118,7 +1118,6 @@ func genCase(r *Rng, maxTr int) Sx {
 				g.ops = append(g.ops, L(I(3), I(g.chain[i])))
 				g.chain = g.chain[:i+1]
 				g.did = i
-				g.slots = nil
 			} else {
 				// any root: pruned, live, the disk root, of an abandoned fork, unknown
 				var label int64
@@ -1130,12 +1129,8 @@ func genCase(r *Rng, maxTr int) Sx {
 				default:
 					label = int64(r.Intn(int(g.nextLabel) + 1))
 				}
-				if label == 0 {
-					continue
-				}
 				g.ops = append(g.ops, L(I(3), I(label)))
 				g.outcomeUnknown = true
-				g.slots = nil
 			}
 		}
 	}
@@ -1162,7 +1157,7 @@ func gen(r *Rng, tier string, emit func(Sx)) {
 func main() {
 	Main(Family{
 		ID:   "C17",
-		Rule: "the c17 generator (random linear histories of account creation / modification / deletion with storage / destruct-and-recreate / re-creation / undo transitions as real trie node sets over 2-5 accounts x 2-4 slots, up to 60 (quick) / 200 (thorough) operations; StateHistory limit 0..8 forcing tail pruning, WriteBufferSize 0 or 64 MiB, maxDiffLayers 1..128; Commit, cap, Recover followed by a different fork) with state history indexing enabled, plus historical read batches: HistoricReader at sampled canonical roots incl. the ones around the freezer tail and the disk layer, roots of abandoned forks and unknown roots, then AccountRLP / Storage of every key of the universe; readers kept across further commits and tail pruning (never across a Recover); Recover to state id 0 is excluded (reported finding). Non-trivial: some historical read succeeded with a value different from the disk layer's current value; distinct = distinct case line.",
+		Rule: "the c17 generator (random linear histories of account creation / modification / deletion with storage / destruct-and-recreate / re-creation / undo transitions as real trie node sets over 2-5 accounts x 2-4 slots, up to 60 (quick) / 200 (thorough) operations; StateHistory limit 0..8 forcing tail pruning, WriteBufferSize 0 or 64 MiB, maxDiffLayers 1..128; Commit, cap, Recover followed by a different fork) with state history indexing enabled, plus historical read batches: HistoricReader at sampled canonical roots incl. the ones around the freezer tail and the disk layer, roots of abandoned forks and unknown roots, then AccountRLP / Storage of every key of the universe; readers kept across further commits, tail pruning, Recover and different forks (they must refuse or still answer for their own root); Recover down to state id 0 included. Non-trivial: some historical read succeeded with a value different from the disk layer's current value; distinct = distinct case line.",
 		Gen:  gen,
 		Run:  run,
 	})
